@@ -94,10 +94,10 @@ Proof. unfold xobligations. apply (xsites_complete_all P). Qed.
 (* ------------------------------------------------------------------ what a verdict gives *)
 Theorem bare_unambiguous XP P te q :
   well_formed_x XP P te q = true -> forall sc al cl c, In (XAmbBare sc al cl c) (xobligations P te q) ->
-  mem c al = false -> (bare_count sc c <= 1)%nat.
+  ((if mem c al then count_name c al else bare_count sc c) <= 1)%nat.
 Proof.
-  intros H sc al cl c Hin Hal. apply xws_ok_iff in H. rewrite Forall_forall in H.
-  specialize (H _ Hin). cbn in H. rewrite Hal in H. cbn in H. now apply Nat.leb_le.
+  intros H sc al cl c Hin. apply xws_ok_iff in H. rewrite Forall_forall in H.
+  specialize (H _ Hin). cbn in H. now apply Nat.leb_le.
 Qed.
 
 Theorem qual_unambiguous XP P te q :
